@@ -476,3 +476,11 @@ Proof.
   cbn [unfinished set_gh set_wseen dm]. rewrite Hu, Hdm. cbn [Nat.eqb].
   split; [|reflexivity]. unfold run_func. destruct ins; [contradiction|]. reflexivity.
 Qed.
+
+Lemma join_counter_lemma (T : N) (evs : list event) :
+    let s := final T evs in
+    is_dead s = false ->
+    unfinished s = length (q s) + extra (dm s) /\
+    (q_empty_stage (dm s) = true -> q s = []) /\
+    (unfinished s = 0 -> forall w, In w (waiters s) -> wstate w = OnEvent).
+Proof. intros s Hd. destruct (final_struct T evs Hd) as [A B C]. auto. Qed.
